@@ -6,6 +6,7 @@
 import DnsModel.Codec
 import DnsModel.Generated.Codecs
 import DnsProofs.C03
+import DnsProofs.C01Nsec
 namespace Dns.C01
 open Dns Dns.C03
 
@@ -54,6 +55,7 @@ def WFStep (vals : List Val) : CStep → Val → Prop
   | .blobRest, .b _ => True
   | .blobSized i, .b bs => vals.getD i (.n 0) = .n bs.length
   | .txt, .ss strs => ∀ s ∈ strs, s.length ≤ 255
+  | .nsec, .ts types => types.Pairwise (· < ·) ∧ ∀ t ∈ types, t < 65536
   | _, _ => False
 
 /-- steps that say themselves where they end -/
@@ -130,13 +132,17 @@ theorem txt_roundtrip (strs : List Bytes) (h : ∀ s ∈ strs, s.length ≤ 255)
       rfl
 
 /-- **rest-consuming steps**, as the last step of a body -/
-theorem last_roundtrip (vals : List Val) (s : CStep) (v : Val) (hs : s = .blobRest ∨ s = .txt) (hw : WFStep vals s v) :
+theorem last_roundtrip (vals : List Val) (s : CStep) (v : Val) (hs : s = .blobRest ∨ s = .txt ∨ s = .nsec)
+    (hw : WFStep vals s v) :
     ∃ w, packStep s v = some w ∧ unpackStep vals s w = some (v, []) := by
-  rcases hs with rfl | rfl <;> cases v <;> simp only [WFStep] at hw
+  rcases hs with rfl | rfl | rfl <;> cases v <;> simp only [WFStep] at hw
   case inl.b bs => exact ⟨bs, rfl, rfl⟩
-  case inr.ss strs =>
+  case inr.inl.ss strs =>
     obtain ⟨w, h1, h2⟩ := txt_roundtrip strs hw
     exact ⟨w, h1, by simp [unpackStep, h2 (w.length + 1) (by omega)]⟩
+  case inr.inr.ts types =>
+    obtain ⟨w, h1, h2⟩ := nsec_roundtrip types hw.1 hw.2
+    exact ⟨w, h1, by simp [unpackStep, h2]⟩
 
 /-! ### whole bodies -/
 
@@ -145,7 +151,7 @@ theorem last_roundtrip (vals : List Val) (s : CStep) (v : Val) (hs : s = .blobRe
 def GoodPlan : List CStep → Bool
   | [] => true
   | .early :: U => GoodPlan U
-  | s :: U => if selfDelim s then GoodPlan U else (s == .blobRest || s == .txt) && U.all (· == .early)
+  | s :: U => if selfDelim s then GoodPlan U else (s == .blobRest || s == .txt || s == .nsec) && U.all (· == .early)
 
 /-- field values fit the body -/
 def WFPlan : List Val → List CStep → List Val → Prop
@@ -175,6 +181,14 @@ theorem packStep_nil (vals : List Val) (s : CStep) (v : Val) (hw : WFStep vals s
     simp [wireOf] at hp
   case blobRest.b bs => simp at hp; subst hp; rfl
   case blobSized.b i bs => simp at hp; subst hp; rfl
+  case nsec.ts types =>
+    cases types with
+    | nil => rfl
+    | cons t ts =>
+      simp only [packNsec, List.isEmpty_cons, Bool.false_eq_true, ↓reduceIte] at hp
+      cases hf : packNsecFold (t :: ts) ⟨[], 0, 0, []⟩ with
+      | none => simp [hf] at hp
+      | some st => simp [hf] at hp
   case txt.ss strs =>
     cases strs with
     | nil => rfl
@@ -208,14 +222,15 @@ theorem good_cons_self (s : CStep) (U : List CStep) (hs : s ≠ .early) (hd : se
   cases s <;> first | exact absurd rfl hs | (simp [selfDelim] at hd; done) | simp [GoodPlan, selfDelim]
 
 theorem good_cons_last (s : CStep) (U : List CStep) (hs : s ≠ .early) (hd : ¬ selfDelim s = true)
-    (hg : GoodPlan (s :: U) = true) : (s = .blobRest ∨ s = .txt) ∧ U.all (· == .early) = true := by
+    (hg : GoodPlan (s :: U) = true) : (s = .blobRest ∨ s = .txt ∨ s = .nsec) ∧ U.all (· == .early) = true := by
   cases s <;> first
     | exact absurd rfl hs
     | (simp [selfDelim] at hd; done)
     | (simp only [GoodPlan, selfDelim, Bool.false_eq_true, ↓reduceIte, Bool.and_eq_true] at hg
        first
          | exact ⟨Or.inl rfl, hg.2⟩
-         | exact ⟨Or.inr rfl, hg.2⟩
+         | exact ⟨Or.inr (Or.inl rfl), hg.2⟩
+         | exact ⟨Or.inr (Or.inr rfl), hg.2⟩
          | (simp at hg))
 
 theorem wf_cons (acc : List Val) (s : CStep) (U : List CStep) (v : Val) (vals : List Val) (hs : s ≠ .early)
@@ -336,7 +351,7 @@ theorem plan_roundtrip (acc : List Val) (U : List CStep) (vals : List Val) (hg :
               obtain ⟨rfl, hV2⟩ := hV
               simp [unpackPlan, (strip_all_early V hV2).2]
           have : unpackPlan (s :: U) a acc = unpackPlan U [] (acc ++ [v]) := by
-            rcases hlast with rfl | rfl <;> simp [unpackPlan, hu]
+            rcases hlast with rfl | rfl | rfl <;> simp [unpackPlan, hu]
           rw [this, hrest U _ hall]
 
 end Dns.C01
